@@ -439,8 +439,8 @@ class Network(Cached):
         :type edge_list: array-like [[int>=0,int>=0]]
         :arg  edge_list: [[i,j]] for edges i -> j
         """
-        #  Convert to Numpy array and get number of nodes
-        edges = np.array(edge_list)
+        #  Convert to Numpy array [edge, 2] and get number of nodes
+        edges = np.array(edge_list).reshape(-1, 2)
 
         if n_nodes is None:
             N = edges.max() + 1
